@@ -1699,6 +1699,9 @@ func (c *codegen) gen2(k fnKey, flags *fnSig, probe bool) (fnOut, *fnSig) {
 			ns = append(ns, n.Name)
 			if _, isPtr := p.Type.(*ast.StarExpr); isPtr {
 				f.ptrVars[v] = true
+				if fb := c.declareNilable(fd, n, v); fb != "" { // code_nil.go: flag + value
+					params = append(params, fb)
+				}
 			}
 			if t.kind == kFunc {
 				// a callback parameter: not a Lean parameter, its calls are logged (code_part4.go)
@@ -1799,6 +1802,12 @@ func (c *codegen) gen2(k fnKey, flags *fnSig, probe bool) (fnOut, *fnSig) {
 	}
 	{
 		doc := fmt.Sprintf("/-- `%s` — %s", gosig, c.pos(fd))
+		if len(f.nilOrder) > 0 { // code_nil.go
+			for _, v := range f.nilOrder {
+				ni := f.nilVars[v]
+				doc += fmt.Sprintf("\n    NILABLE pointer parameter %s (code_nil.go): `%s = true` ↦ the pointer is nil (the value `%s` is a ghost),\n    `%s == nil` ↦ `%s = true`; a dereference where it is nil ↦ `Res.panic`.  `%s` below is this function on non-nil pointers.", ni.name, ni.flag, v.lean, ni.name, ni.flag, leanFn(k))
+			}
+		}
 		if len(f.nonNilUsed) > 0 {
 			doc += fmt.Sprintf("\n    ASSUMES (topic assumption, code_parse.go) that the pointer parameter(s) %s are not nil:\n    `p == nil` ↦ False, `p != nil` ↦ True.", strings.Join(f.nonNilUsed, ", "))
 		} else if notes := ptrAliasNotes[fd]; len(notes) > 0 {
@@ -1809,7 +1818,7 @@ func (c *codegen) gen2(k fnKey, flags *fnSig, probe bool) (fnOut, *fnSig) {
 		}
 		out = append(out, doc+" -/")
 	}
-	hdr := "def " + leanFn(k)
+	hdr := ""
 	if sig.grow {
 		hdr += " (grow : Nat → Nat → Nat)"
 	}
@@ -1829,6 +1838,7 @@ func (c *codegen) gen2(k fnKey, flags *fnSig, probe bool) (fnOut, *fnSig) {
 		}
 		hdr += c.sigBinders(sig, ts, fd)
 	}
+	hdrRest := hdr // code_nil.go: everything in front of the value parameters
 	if len(params) > 0 {
 		hdr += " " + strings.Join(params, " ")
 	}
@@ -1836,7 +1846,13 @@ func (c *codegen) gen2(k fnKey, flags *fnSig, probe bool) (fnOut, *fnSig) {
 	if sig.monadic {
 		rt = "Res (" + rt + ")"
 	}
-	out = append(out, hdr+" : "+rt+" :=")
+	if len(f.nilOrder) > 0 { // code_nil.go: `<f>_nilable` and the wrapper `<f>`
+		out = append(out, "def "+leanFn(k)+"_nilable"+hdr+" : "+rt+" :=")
+		out = append(out, ind(body, 2)...)
+		out = append(out, c.nilableWrapper(k, f, sig, hdrRest, params, rt, fd)...)
+		return fnOut{k, out}, sig
+	}
+	out = append(out, "def "+leanFn(k)+hdr+" : "+rt+" :=")
 	out = append(out, ind(body, 2)...)
 	return fnOut{k, out}, sig
 }
